@@ -15,6 +15,21 @@ pub open spec fn le_nat(s: Seq<u8>) -> nat
     }
 }
 
+/// little-endian encoding of v in `len` bytes (v mod 256^len)
+pub open spec fn nat_to_le(v: nat, len: nat) -> Seq<u8>
+    decreases len,
+{
+    if len == 0 {
+        Seq::empty()
+    } else {
+        seq![(v % 256) as u8] + nat_to_le(v / 256, (len - 1) as nat)
+    }
+}
+
+pub open spec fn zeros(len: nat) -> Seq<u8> {
+    Seq::new(len, |i: int| 0u8)
+}
+
 pub open spec fn spec_rotr64(x: u64, b: u64) -> u64 {
     (x >> b) | (x << ((64 - b) as u64))
 }
